@@ -27,6 +27,11 @@ pub(crate) struct Batch {
 	// the pipeline overwrites it before the batch is written to WAL.
 	pub(crate) starting_seq_num: u64,
 	pub(crate) size: u64, // Total size of all records (not serialized)
+	// WAL segment this batch was appended to (u64::MAX = not logged / unknown;
+	// not serialized). The memtable that receives the batch remembers the oldest
+	// such segment, so that a flush never releases a segment that still holds
+	// the only durable copy of a batch sitting in another memtable.
+	pub(crate) wal_number: u64,
 }
 
 impl Default for Batch {
@@ -43,6 +48,7 @@ impl Batch {
 			version: BATCH_VERSION,
 			starting_seq_num,
 			size: 0,
+			wal_number: u64::MAX,
 		}
 	}
 
@@ -287,6 +293,7 @@ impl Batch {
 			valueptrs,
 			starting_seq_num: seq_num,
 			size: 0, // Decoded batches don't track size
+			wal_number: u64::MAX,
 		})
 	}
 }
